@@ -346,6 +346,7 @@ func checkEmptinessPredicate(w *World, c *Check, t *tables) {
 	pr := t.pr
 	reads := map[*types.Named]map[string]bool{}
 	signBad := map[string]string{}
+	setTested := map[*types.Named]map[string]bool{}
 	for _, f := range w.Reach([]*ssa.Function{root}, nil) {
 		if f.Signature.Results().Len() != 1 {
 			continue
@@ -382,6 +383,27 @@ func checkEmptinessPredicate(w *World, c *Check, t *tables) {
 							}
 						}
 					}
+					// which fields are tested for being set at all (len(x) > 0, x != nil, x != "", !x.IsZero(), x != 0)?
+					if v, ok := in.(ssa.Value); ok {
+						switch in.(type) {
+						case *ssa.BinOp, *ssa.Call, *ssa.UnOp:
+							for _, hold := range []bool{true, false} {
+								for _, g := range pr.classifyCond(v, hold) {
+									if g.side != sideSet || g.signOnly {
+										continue
+									}
+									for _, r := range g.refs {
+										if r.Root == pr.canonicalRoot(p) && len(r.Names) > 0 {
+											if setTested[n] == nil {
+												setTested[n] = map[string]bool{}
+											}
+											setTested[n][r.Names[0]] = true
+										}
+									}
+								}
+							}
+						}
+					}
 				}
 			}
 		}
@@ -408,6 +430,10 @@ func checkEmptinessPredicate(w *World, c *Check, t *tables) {
 			switch {
 			case !rd[f.Name]:
 				c.bad("C01.empty", key, w.FuncPos(root), fmt.Sprintf("the emptiness check applied to decoded values never looks at %s: an embedded value without id and type that only carries %q is judged empty and dropped by the decoder", key, f.Term))
+			case !setTested[s.Named][f.Name] && !(f.Name == "Type" && isLeafStruct(w, s)):
+				// (a struct no other struct extends is reached only through the names of its own family, so a membership
+				// test of its type name is as wide as 'is set' for every value the decoder can hand it)
+				c.bad("C01.empty", key, w.FuncPos(root), fmt.Sprintf("the emptiness check looks at %s only through a test that is narrower than 'is set' (no plain non-empty / non-nil / non-zero test of it): a value without id that only carries an unusual %q is judged empty and dropped by the decoder", key, f.Term))
 			case signBad[key] != "":
 				c.bad("C01.empty", key, w.FuncPos(root), fmt.Sprintf("the emptiness check tests %s by sign (%s): a value that only carries a negative %q is judged empty and dropped by the decoder", key, signBad[key], f.Term))
 			default:
@@ -677,6 +703,7 @@ func checkC05(w *World, c *Check, tier string) {
 		return
 	}
 	c.floor("C05.R-cover", 300)
+	checkNothingInvented(w, c, t)
 	c.floor("C05.R-map", 20)
 	c.floor("C05.shape", 2)
 	c.floor("C05.type", 3)
@@ -905,4 +932,134 @@ func groupUncoveredViews(w *World, c *Check, rule string, s *StructInfo, byF map
 		}
 	}
 	return done
+}
+
+// isLeafStruct: no other tagged struct has s as a proper layout prefix (nothing is viewed through it).
+func isLeafStruct(w *World, s *StructInfo) bool {
+	for _, v := range w.TaggedStructs() {
+		if v.Named != s.Named && isPrefixView(s.Named, v.Named) {
+			return false
+		}
+	}
+	return true
+}
+
+// checkNothingInvented (C05.invent): a loader fills a property only from what the document says about it. Every store
+// into a tagged field inside the JSONLoad* functions must be fed by a read of the document (a call that takes the
+// fastjson value/object) or a constant — not by another property of the value being built (a total derived from the
+// number of items, a default copied from a sibling): such a value is "invented", it was not in the document, and an
+// independent reader of the same document does not see it.
+func checkNothingInvented(w *World, c *Check, t *tables) {
+	isDocType := func(tt types.Type) bool {
+		n := namedOf(tt)
+		return n != nil && n.Obj().Pkg() != nil && strings.HasSuffix(n.Obj().Pkg().Path(), "fastjson")
+	}
+	var fromDoc func(v ssa.Value, d int, seen map[ssa.Value]bool) (doc bool, other string)
+	fromDoc = func(v ssa.Value, d int, seen map[ssa.Value]bool) (bool, string) {
+		if d > 10 || seen[v] {
+			return false, ""
+		}
+		seen[v] = true
+		switch x := v.(type) {
+		case *ssa.Const:
+			return true, ""
+		case *ssa.Call:
+			for _, a := range allArgs(x) {
+				if isDocType(a.Type()) {
+					return true, ""
+				}
+			}
+			doc, other := false, ""
+			for _, a := range allArgs(x) {
+				dd, oo := fromDoc(a, d+1, seen)
+				doc = doc || dd
+				if oo != "" {
+					other = oo
+				}
+			}
+			return doc, other
+		case *ssa.UnOp:
+			if fa, ok := x.X.(*ssa.FieldAddr); ok {
+				if fp, ok := t.pr.structPath(fa, 0); ok && len(fp.Names) > 0 {
+					return false, fp.String()
+				}
+			}
+			return fromDoc(x.X, d+1, seen)
+		case *ssa.Field:
+			if fp, ok := t.pr.structPath(x, 0); ok && len(fp.Names) > 0 {
+				return false, fp.String()
+			}
+		case *ssa.FieldAddr:
+			if fp, ok := t.pr.structPath(x, 0); ok && len(fp.Names) > 0 {
+				return false, fp.String()
+			}
+		case *ssa.Phi:
+			doc, other := false, ""
+			for _, e := range x.Edges {
+				dd, oo := fromDoc(e, d+1, seen)
+				doc = doc || dd
+				if oo != "" {
+					other = oo
+				}
+			}
+			return doc, other
+		case *ssa.Parameter, *ssa.FreeVar:
+			return isDocType(x.Type()), ""
+		}
+		doc, other := false, ""
+		if in, ok := v.(ssa.Instruction); ok {
+			var rands [8]*ssa.Value
+			for _, op := range in.Operands(rands[:0]) {
+				if op != nil && *op != nil {
+					dd, oo := fromDoc(*op, d+1, seen)
+					doc = doc || dd
+					if oo != "" {
+						other = oo
+					}
+				}
+			}
+		}
+		return doc, other
+	}
+	n := 0
+	for _, f := range w.Funcs {
+		root := f
+		for root.Parent() != nil {
+			root = root.Parent()
+		}
+		if !strings.HasPrefix(root.Name(), "JSONLoad") && !strings.HasPrefix(root.Name(), "JSONUnmarshalTo") {
+			continue
+		}
+		cnt := map[string]int{}
+		for _, b := range f.Blocks {
+			for _, in := range b.Instrs {
+				st, ok := in.(*ssa.Store)
+				if !ok {
+					continue
+				}
+				fa, ok := st.Addr.(*ssa.FieldAddr)
+				if !ok {
+					continue
+				}
+				fp, ok := t.pr.structPath(fa, 0)
+				if !ok || len(fp.Names) == 0 || fp.RootType == nil || w.StructInfoOf(fp.RootType.Obj().Name()) == nil {
+					continue
+				}
+				n++
+				_, other := fromDoc(st.Val, 0, map[ssa.Value]bool{})
+				key := funcName(f) + ":" + fp.String()
+				cnt[key]++
+				if cnt[key] > 1 {
+					key = fmt.Sprintf("%s#%d", key, cnt[key])
+				}
+				if other != "" && other != fp.String() {
+					c.bad("C05.invent", key, w.InstrPos(st), fmt.Sprintf("%s fills %s from %s of the value being built, not from the document: the decoded value holds a property the document does not say (and an independent reader does not see)", funcName(f), fp.String(), other))
+				} else {
+					c.ok("C05.invent", key, w.InstrPos(st), "filled from the document")
+				}
+			}
+		}
+	}
+	c.stat("loader_field_stores", n)
+	c.floor("C05.invent", 80)
 }
